@@ -8,22 +8,79 @@ Driver of the C07 section of the oracle.  Header `@ C07 <codec>` with codec one 
   parsestr <hex>          XxxParseToString(string)               -> <hex> | panic
   parsebytes <hex>        XxxParseToString([]byte)               -> <hex> | panic
   roundtrip <hex>         XxxParseToString(XxxFormatToString(s)) -> <hex> | panic
+
+Range operations for the exhaustive extras (one 64-bit FNV-1a style digest per range; the
+harness folds the answers of the real functions in the same order and narrows a difference
+down to one `format`/`roundtrip`/`parsestr` line):
+
+  scalars <lo> <hi>       for every code point lo ≤ r ≤ hi (surrogates and values above U+10FFFF
+                          included: `string(rune(r))` is then U+FFFD), s = UTF-8 of r:
+                          XxxFormat(s) and XxxParseToString(XxxFormat(s))
+  escapes <lo> <hi> <upper|lower>
+                          for every value lo ≤ v ≤ hi: XxxParseToString of the escape text
+                          `\ooo` (%03o) | `\xXX` (%02X) | `\UXXXXXXXX` (%08X) | `\uXXXX` (%04X)
 -/
 import Golib.Model.C07Enc
 
 namespace Golib.C07
 open Golib.Proto
 
-structure Codec where
+structure DrvCodec where
   format : Bytes → Option Bytes
   body   : Bytes → St → Option Step
+  /-- escape prefix, digit base and digit count of the codec (test-input construction only) -/
+  pfx    : Bytes
+  base   : Nat
+  width  : Nat
 
-def codec? : String → Option Codec
-  | "octal" => some ⟨octalFormat, octalBody⟩
-  | "hex" => some ⟨hexFormat, hexBody⟩
-  | "unicode" => some ⟨unicodeFormat, unicodeBody⟩
-  | "utf16" => some ⟨utf16Format, utf16Body⟩
+def codec? : String → Option DrvCodec
+  | "octal" => some ⟨octalFormat, octalBody, [92], 8, 3⟩
+  | "hex" => some ⟨hexFormat, hexBody, [92, 120], 16, 2⟩
+  | "unicode" => some ⟨unicodeFormat, unicodeBody, [92, 85], 16, 8⟩
+  | "utf16" => some ⟨utf16Format, utf16Body, [92, 117], 16, 4⟩
   | _ => none
+
+/-! ### digests for the range operations -/
+
+def mix (h : UInt64) (x : Nat) : UInt64 := (h ^^^ UInt64.ofNat x) * 1099511628211
+def h0 : UInt64 := 14695981039346656037
+
+def mixBytes (h : UInt64) (o : Option Bytes) : UInt64 :=
+  match o with
+  | none => mix h 4096                       -- panic
+  | some bs => bs.foldl mix (mix h bs.length)
+
+def resBytes : Res Bytes → Option Bytes
+  | .ok b => some b
+  | _ => none
+
+def mixScalar (c : DrvCodec) (h : UInt64) (r : Nat) : UInt64 :=
+  let s := Utf8.encodeRune (r : Int)
+  let f := c.format s
+  let h := mixBytes h f
+  match f with
+  | none => mix h 4096
+  | some o => mixBytes h (resBytes (parseToString c.body o))
+
+/-- `width` digits of `v` in `base` (most significant first; the value is truncated to the
+width), upper or lower case. -/
+def fixedDigits (base : Nat) (lower : Bool) : Nat → Nat → Bytes
+  | 0, _ => []
+  | w + 1, v =>
+    let d := v % base
+    let ch := if d < 10 then 48 + d else (if lower then 87 else 55) + d
+    fixedDigits base lower w (v / base) ++ [ch]
+
+def escapeText (c : DrvCodec) (lower : Bool) (v : Nat) : Bytes :=
+  c.pfx ++ fixedDigits c.base lower c.width v
+
+def mixEscape (c : DrvCodec) (lower : Bool) (h : UInt64) (v : Nat) : UInt64 :=
+  mixBytes h (resBytes (parseToString c.body (escapeText c lower v)))
+
+/-- fold `f` over `n` consecutive naturals starting at `v`. -/
+def foldRange (f : UInt64 → Nat → UInt64) : Nat → Nat → UInt64 → UInt64
+  | 0, _, h => h
+  | n + 1, v, h => foldRange f n (v + 1) (f h v)
 
 def showRes (r : Res Bytes) : String :=
   match r with
@@ -31,7 +88,7 @@ def showRes (r : Res Bytes) : String :=
   | .panic => "panic"
   | .fuel => "timeout"
 
-def runOp (c : Codec) (t : List String) : String :=
+def runOp (c : DrvCodec) (t : List String) : String :=
   match t with
   | ["format", h] | ["formatstr", h] =>
     match unhex h with
@@ -51,6 +108,20 @@ def runOp (c : Codec) (t : List String) : String :=
     match unhex h with
     | none => "bad-op"
     | some b => showRes (parseToString c.body b)
+  | ["scalars", lo, hi] =>
+    match lo.toNat?, hi.toNat? with
+    | some lo, some hi =>
+      if hi < 4294967296 ∧ hi - lo < 4194304 then
+        toString (foldRange (mixScalar c) (hi + 1 - lo) lo h0).toNat
+      else "bad-op"
+    | _, _ => "bad-op"
+  | ["escapes", lo, hi, cs] =>
+    match lo.toNat?, hi.toNat?, (if cs = "upper" then some false else if cs = "lower" then some true else none) with
+    | some lo, some hi, some lower =>
+      if hi < 4294967296 ∧ hi - lo < 4194304 then
+        toString (foldRange (mixEscape c lower) (hi + 1 - lo) lo h0).toNat
+      else "bad-op"
+    | _, _, _ => "bad-op"
   | ["roundtrip", h] =>
     match unhex h with
     | none => "bad-op"
@@ -59,7 +130,7 @@ def runOp (c : Codec) (t : List String) : String :=
       | none => "panic"
   | _ => "bad-op"
 
-def runOps (c : Codec) : Bool → List String → List String
+def runOps (c : DrvCodec) : Bool → List String → List String
   | _, [] => []
   | true, _ :: rest => "dead" :: runOps c true rest
   | false, l :: rest =>
